@@ -12,6 +12,7 @@ OUT=${MATRIX_OUT:-/tmp/matrix.out}
 : > $OUT
 for S in $SEEDS; do
   [ -f $S/patch.diff ] || continue
+  if [ -f $S/OBSOLETE.md ]; then echo "$(basename $S) OBSOLETE" >> $OUT; continue; fi
   rm -rf $SCR/repo $SCR/verif; mkdir -p $SCR/verif
   rsync -a --exclude .git /repo/ $SCR/repo/
   cp known_findings.txt $SCR/verif/
